@@ -61,6 +61,7 @@ func isStrTok(t string) bool { return strings.HasPrefix(t, "s:") }
 
 func genC05(c *h.Ctx) {
 	genOop(c)
+	genOps2(c)
 	vs := c05Values(c.Rng)
 	bd := h.BoundaryDoubles()
 	for _, op := range c05Unary {
@@ -115,6 +116,10 @@ func implC05(line string) string {
 	switch f[0] {
 	case "oop":
 		return implOop(f)
+	case "ex":
+		return implEx(f)
+	case "instr":
+		return implInstr(f)
 	case "toInt32":
 		return fmt.Sprint(otto.VerifToInt32(h.ParseVal(f[1])))
 	case "toUint32":
